@@ -120,6 +120,52 @@ pub fn run(toks: &[&str]) -> String {
                     let v = reg.get_vreg();
                     Some(format!("v {} {}", v[..], reg.num()))
                 }
+                "freq" => {
+                    // outcome frequencies of measure_mask over fresh clones of the current register
+                    let shots = parse_n(t.next().unwrap());
+                    let m = parse_n(t.next().unwrap());
+                    let mut counts = std::collections::BTreeMap::<usize, usize>::new();
+                    for _ in 0..shots {
+                        let mut r = reg.clone();
+                        *counts.entry(r.measure_mask(m).get()).or_insert(0) += 1;
+                    }
+                    let mut s = format!("f {}", counts.len());
+                    for (k, v) in &counts { s.push_str(&format!(" {} {}", k, v)); }
+                    Some(s)
+                }
+                "seqfreq" => {
+                    // measure mask A then mask B on fresh clones: joint outcome frequencies
+                    let shots = parse_n(t.next().unwrap());
+                    let ma = parse_n(t.next().unwrap());
+                    let mb = parse_n(t.next().unwrap());
+                    let mut counts = std::collections::BTreeMap::<usize, usize>::new();
+                    for _ in 0..shots {
+                        let mut r = reg.clone();
+                        let a = r.measure_mask(ma).get();
+                        let b = r.measure_mask(mb).get();
+                        *counts.entry(a | b).or_insert(0) += 1;
+                    }
+                    let mut s = format!("f {}", counts.len());
+                    for (k, v) in &counts { s.push_str(&format!(" {} {}", k, v)); }
+                    Some(s)
+                }
+                "samplestats" => {
+                    // per-cell sum and sum of squares of sample_all(count) over reps draws
+                    let count = parse_n(t.next().unwrap());
+                    let reps = parse_n(t.next().unwrap());
+                    let mut sum: Vec<f64> = vec![];
+                    let mut sq: Vec<f64> = vec![];
+                    for _ in 0..reps {
+                        let h = reg.sample_all(count);
+                        if sum.is_empty() { sum = vec![0.0; h.len()]; sq = vec![0.0; h.len()]; }
+                        for (i, c) in h.iter().enumerate() { sum[i] += *c as f64; sq[i] += (*c as f64) * (*c as f64); }
+                    }
+                    let _ = qvnt::verif::take_normals();
+                    let mut s = format!("s {}", sum.len());
+                    for x in &sum { s.push(' '); s.push_str(&hex(*x)); }
+                    for x in &sq { s.push(' '); s.push_str(&hex(*x)); }
+                    Some(s)
+                }
                 "dump" => {
                     let raw = reg.verif_raw();
                     Some(format!("d {} {}{}", reg.num(), raw.len(), fmt_c(raw)))
